@@ -687,15 +687,23 @@ func c14NotSupportedExclusive(w *World, r *Report) {
 	}
 	cerr := w.SSAFunc(w.Method("compile", "Compiler", "error"))
 	var apply *ssa.Call
-	for _, b := range f.Blocks {
-		for _, in := range b.Instrs {
-			c, ok := in.(*ssa.Call)
-			if !ok || c.Call.StaticCallee() == nil || nm(c.Call.StaticCallee()) != "doDeviate" {
-				continue
-			}
-			last := c.Call.Args[len(c.Call.Args)-1]
-			if mi, ok := last.(*ssa.MakeInterface); ok && strings.Contains(mi.X.Type().String(), "deviateNotSupported") {
-				apply = c
+	// in processDeviations, or in the function of the package it hands the loop over the deviate statements to
+	root := f
+	for _, g := range bodiesDeep(root, 0) {
+		if g.Pkg != root.Pkg {
+			continue
+		}
+		for _, b := range g.Blocks {
+			for _, in := range b.Instrs {
+				c, ok := in.(*ssa.Call)
+				if !ok || c.Call.StaticCallee() == nil || nm(c.Call.StaticCallee()) != "doDeviate" {
+					continue
+				}
+				last := c.Call.Args[len(c.Call.Args)-1]
+				if mi, ok := last.(*ssa.MakeInterface); ok && strings.Contains(mi.X.Type().String(), "deviateNotSupported") {
+					apply = c
+					f = g
+				}
 			}
 		}
 	}
